@@ -42,6 +42,7 @@ type Solver struct {
 	WonBy     map[string]int
 	Restarts  int
 	CrossAll  bool // wait for every member and compare (cross-check mode)
+	only      string
 }
 
 func solverArgv(kind string) []string {
@@ -244,6 +245,9 @@ func (s *Solver) Assert(t *Term) {
 // restarted for the next query.  "unknown" only if every member gave up.
 func (s *Solver) Check() string { return s.CheckT(s.timeoutMs) }
 
+// Only restricts the next CheckT to the named member ("" = whole portfolio).
+func (s *Solver) Only(name string) { s.only = name }
+
 // CheckT: like Check with an explicit wall-clock limit for this query.
 func (s *Solver) CheckT(limitMs int) string {
 	t0 := time.Now()
@@ -257,7 +261,12 @@ func (s *Solver) CheckT(limitMs int) string {
 	}
 	ch := make(chan ans, len(s.procs))
 	sent := 0
+	only := s.only
+	s.only = ""
 	for i, p := range s.procs {
+		if only != "" && p.name != only && len(s.procs) > 1 {
+			continue
+		}
 		if !p.alive {
 			if err := p.start(s.timeoutMs); err != nil {
 				continue
@@ -304,7 +313,7 @@ loop:
 	}
 	// kill members that have not answered
 	for i, p := range s.procs {
-		if _, ok := got[i]; !ok && p.alive {
+		if _, ok := got[i]; !ok && p.alive && p.inPush {
 			p.kill()
 		}
 	}
